@@ -499,11 +499,13 @@ impl<'a, 'c> Enc<'a, 'c> {
             16 if max >= 12 && !self.over_budget() => 255,
             _ => self.rng.below(max + 1),
         };
-        let mut v = Vec::new();
-        for _ in 0..n {
+        // n is a length in BYTES (the readers' limit is in bytes): multi-byte characters are only used where they fit
+        let mut v: Vec<u8> = Vec::new();
+        while (v.len() as u64) < n {
+            let room = n - v.len() as u64;
             match self.rng.below(12) {
-                0 => v.extend_from_slice("é".as_bytes()),
-                1 => v.extend_from_slice("日".as_bytes()),
+                0 if room >= 2 => v.extend_from_slice("é".as_bytes()),
+                1 if room >= 3 => v.extend_from_slice("日".as_bytes()),
                 _ => v.push(b' ' + self.rng.below(95) as u8),
             }
         }
